@@ -124,7 +124,7 @@ func c12CodecSets() []c12CodecSet {
 }
 
 func c12(run *ev.Run) int {
-	run.SetRule("cases = HTTP methods (standard, lower-case, empty, odd tokens) x versions 1.0/1.1/2.0/3.0 x content types (every advertised one, case variants, parameters, blanks, bare prefixes, the other kind's prefix, unregistered codecs, random) x 5 registered codec sets x 4 kinds through Handler.ServeHTTP with a recording ResponseWriter, plus client calls through base URLs with path prefixes/trailing slashes, plus rejected requests whose body stays open until the handler answers; also codec names containing '+' and a nameless codec; oracle = dispatch model (405+Allow, 505, 415+Accept-Post == reference set, advertised == accepted, user-code and interceptor hook counters 0 or exactly 1, Spec equality); distinct by (codec set, kind, method class, version, content-type class)")
+	run.SetRule("cases = HTTP methods (standard, lower-case, empty, odd tokens) x versions 1.0/1.1/2.0/3.0 x content types (every advertised one, case variants, parameters, blanks, bare prefixes, the other kind's prefix, unregistered codecs, random) x 5 registered codec sets x 4 kinds through Handler.ServeHTTP with a recording ResponseWriter, plus client calls through base URLs with path prefixes/trailing slashes, plus rejected requests whose body stays open until the handler answers; also codec names containing '+' and a nameless codec; oracle = dispatch model (405+Allow, 505, 415+Accept-Post == reference set, advertised == accepted, user-code and interceptor hook counters 0 or exactly 1, Spec equality); distinct by (codec set, kind, method class, version, content-type class); the recording interceptor arrives in one of three option layouts (alone in the first option; in the second or third option after a first option with two interceptors), the option values shared by the four handlers / clients of a set")
 	sets := c12CodecSets()
 	methods := []string{"POST", "GET", "PUT", "DELETE", "HEAD", "OPTIONS", "PATCH", "CONNECT", "TRACE", "post", "Post", "", "POSTX", "BREW"}
 	versions := []int{10, 1, 2, 3}
